@@ -31,10 +31,9 @@ mod c19 {
         (if ear { 0.5 } else { 0.0 }) + (if mic { 0.1 } else { 0.0 })
     }
 
-    fn any_small_mixer() -> (ZXMixer, usize) {
-        // small rates so that the ring logic can be unrolled: samples/frame = rate/50 in 1..=4
-        let rate: usize = kani::any();
-        kani::assume(rate >= 50 && rate < 250);
+    /// `rate` is a literal at every call site (samples/frame = rate/50 in 1..=4), so the cursor
+    /// arithmetic multiplies by a constant
+    fn small_mixer(rate: usize) -> (ZXMixer, usize) {
         let mut m = mk(rate);
         let s = rate / 50;
         let vol: f64 = kani::any();
@@ -43,6 +42,16 @@ mod c19 {
         let use_beeper: bool = kani::any();
         m.use_beeper = use_beeper;
         (m, s)
+    }
+
+    fn any_small_mixer() -> (ZXMixer, usize) {
+        let sel: u8 = kani::any();
+        kani::assume(sel < 3);
+        match sel {
+            0 => small_mixer(50),
+            1 => small_mixer(149),
+            _ => small_mixer(200),
+        }
     }
 
     fn prefill(m: &mut ZXMixer, n: usize) {
@@ -61,7 +70,7 @@ mod c19 {
     // @features sound
     // @timeout 900
     // @fn ZXMixer::process; ZXMixer::gen_sample; ZXMixer::samples_per_frame; ZXMixer::sample_count_for_frame_fraction; ZXBeeper::gen_sample; SoundSample::mul_eq; SoundSample::into_f32; ZXMixer::volume
-    // @sym sample rate 50..249 (samples/frame 1..4), master volume in [0, 1.275] (= sound_volume 0..255 / 200), beeper on/off, speaker and MIC levels, cursor last_pos <= samples/frame, queue length 0..2*spf-1, frame fraction (any finite f64 >= 0)
+    // @sym sample rate from {50, 149, 200} Hz (samples/frame 1, 2, 4; literals), master volume in [0, 1.275] (= sound_volume 0..255 / 200), beeper on/off, speaker and MIC levels, cursor last_pos <= samples/frame, queue length 0..2*spf-1, frame fraction (any finite f64 >= 0)
     // @assert one mixer step: if the queue already holds a frame's worth nothing is added; otherwise exactly max(0, pos - last_pos) samples are queued and the cursor moves to pos; every queued sample is (left == right) volume*(0.5*speaker + 0.1*MIC) (0 with the beeper disabled), finite, >= 0 and <= 0.6*volume; the queue never reaches two frames' worth (invariant len <= 2*spf-1 preserved); a drained frame keeps len == cursor
     // @bound samples/frame <= 4 so the push loop unrolls (unwind 9); real rates are covered by the c19_cursor_* arithmetic queries
     // @outside rates >= 8000 in this step harness; AY contribution (float DSP)
@@ -99,7 +108,7 @@ mod c19 {
             kani::assert(n1 == m.last_pos || n0 >= s, "c19.step.drained_frame_tracks_cursor");
         }
         kani::cover!(n1 == 2 * s - 1 && n1 > n0 && s == 4, "worst-case queue growth");
-        kani::cover!(n0 == lp && n1 == s && s == 3, "drained frame completes with exactly spf samples");
+        kani::cover!(n0 == lp && n1 == s && s == 2, "drained frame completes with exactly spf samples");
         kani::cover!(ear && !mic && n1 > n0, "speaker high");
     }
 
@@ -109,7 +118,7 @@ mod c19 {
     // @features sound
     // @timeout 900
     // @fn ZXMixer::new_frame; ZXMixer::pop
-    // @sym sample rate 50..249, cursor, queue length 0..2*spf-1, number of samples the host drains afterwards
+    // @sym sample rate from {50, 149, 200} Hz, cursor, queue length 0..2*spf-1, number of samples the host drains afterwards
     // @assert a frame end pads the queue to a full frame with the last level if the frame was cut short, never removes samples, resets the cursor; so a host draining at frame ends receives exactly floor(rate/50) samples per frame, and an undrained queue stays below two frames
     // @bound samples/frame <= 4 (unwind 9)
     #[kani::proof]
